@@ -96,7 +96,7 @@ pub fn run(ctx: &Ctx) -> (Report, Meta) {
     .floor("scalar_vector_pairs", 300)
     .floor("copies_pairs", 200)
     .floor("reflection_pairs_with_events", 50);
-    let n = ctx.size(16_000, 1_600_000);
+    let n = ctx.size(64_000, 4_800_000);
     let g = GenOpts { allow_max_step: true, allow_first_step: true, bidirectional_problems: true, max_span: 20.0, ..Default::default() };
     let rep = par_for(n, "C13", |i, rep| {
         let case_id = format!("case/{}", i);
